@@ -51,12 +51,20 @@ def run(ctx):
         c.graph_leg(ctx, "ReteAgenda.tla", "agenda", "Gen_ReteAgenda_d7.cfg", {}, 30000, 12, 4, "Sim_ReteAgenda.cfg", 40000, 13,
                     timeout=3000)
     fireloops(ctx)
+    # ordering for the two vector-agenda engines: FireOrder.tla cases (n up to 55 / 128 rules, eight priority patterns)
+    gen = "Gen_FireOrder.cfg" if q else "Gen_FireOrder_all.cfg"
+    edges = ctx.path(gen + ".edges")
+    g = c.tlc_gen(ctx, "FireOrder.tla", gen, edges, timeout=900)
+    r = c.replay(ctx, "fireorder", edges)
+    c.log("  fire order (ReteUlEngine / TypedReteUlEngine): %d cases, %d failing" % (g["edges"], r["failures_n"]))
     ctx.cov["rule"] = ("agenda: shortest path + one edge for every (state,op) of the TLC-dumped ReteAgenda graph (6 rules: salience tie, "
                        "negative salience, two agenda groups, activation group, lock-on-active, auto-focus, no-loop on/off), all op "
                        "sequences to the all-histories depth, seeded walks and TLC-simulated behaviours of 12 ops on a real "
                        "AdvancedAgenda with strictly increasing creation instants; returned activation, focus and has_fired compared "
                        "after every op. termination: every (engine, rule-kind subset) case of FireLoops.tla run in its own process "
-                       "under a watchdog; the returned vector's length checked against the engine's iteration bound")
+                       "under a watchdog; the returned vector's length checked against the engine's iteration bound. order of the vector-agenda "
+                       "engines: every (engine, n, priority pattern) case of FireOrder.tla - one fire_all over n always-true rules - must fire "
+                       "in descending priority, rule-addition order among equals")
     ctx.assumptions += ["default Salience conflict-resolution strategy; ruleflow groups not exercised",
                         "no-loop/group exclusivity are stated under the discipline mark_rule_fired after every returned activation"]
     return c.finish(ctx, "model_checking")
@@ -75,5 +83,5 @@ def replay(ctx, path):
             print("did not return within", WATCHDOG_S, "s")
             ok = False
         return 0 if ok else 1
-    p = subprocess.run([c.VH, "replay-one", "agenda", path])
+    p = subprocess.run([c.VH, "replay-one", f.get("model", "agenda") if f.get("model") in ("agenda", "fireorder") else "agenda", path])
     return 1 if p.returncode == 1 else (0 if p.returncode == 0 else 2)
